@@ -124,13 +124,23 @@ def run_c14(ctx):
         au_specs.append(dict(base, mode="ref", id=f"{gid}:ref", seed=1))
         for r in range(3):
             au_specs.append(dict(base, mode="random", steps=60 + n // 3, style=[0, 1, 4][r], id=f"{gid}:r{r}", seed=ctx.seed * 11 + r))
-    files = blocks.run_bench(ctx, au_specs, "C14au")
+    # SigMF recordings and archives (members in every order, unrelated members) and plain files read
+    # back: the same samples come out, once per repetition (same scenarios and oracle as C16)
+    from checks import sources
+    src_table = [e for e in sources.source_table(th) if e["block"].startswith(("SigMFSource", "FileSource")) and e["params"].get("repeat") in (1, 2)]
+    src_specs = blocks.make_specs(ctx, src_table, [], 4 if th else 2, "none", 1, probes_close=False)
+    for sp in src_specs:
+        sp["gid"] += 1000
+        if sp.get("fn", {}).get("notags"):
+            sp["fn"] = {"kind": "vecsource_notags", "p": sp["fn"]["p"]}
+    ctx.cov["distinct_nontrivial"] += len(src_specs)
+    files = blocks.run_bench(ctx, au_specs + src_specs, "C14au")
     bf = blocks.judge(ctx, files)
     blocks.report(ctx, bf, {"fn_out", "panic", "err", "prefix", "final_out", "unsettled", "constructor"})
     ctx.assumptions += [
         "TCP may coalesce writes: the oracle for socket and pipe sources is the grouping of all bytes sent, which does not depend on how reads were split",
         "AU: inputs k/8 so that x*32767 is exact in f32; decode(encode(x)) = Q(x) follows from the two format oracles",
-        "SigMF recordings/archives are covered by C16's source scenarios (same data comes back)",
+        "SigMF recordings/archives and plain files: the source scenarios of C16 with repeat 1 and 2 are run here too (same data comes back)",
     ]
     return vlib.finish(ctx, "model_checking", extra_cov={
         "rule": "states = TLC-enumerated codec values and read splits; traces = events judged by TLC (codec, reassembly per split, round trips, AU scenarios)"})
